@@ -114,6 +114,9 @@ def main():
     oracle_fail = []
     # debug and release profiles by default: debug_assert!, overflow checks and cfg(debug_assertions) make the profile part of the input space
     builds = mod.builds(tier) if hasattr(mod, "builds") else ["dev", "release"]
+    if prop != "C02":
+        # a code path outside the ChaCha back ends that exists only under a target feature: a build of its own for every property
+        builds = list(builds) + [C.feature_build(f) for f in C.source_target_features(exclude="rng/chacha") if f not in ("sse2",) and "tf-" + f not in builds]
     if a.replay:
         rp = json.load(open(a.replay))
         fixed_requests = rp.get("requests") or [rp["request"]]
